@@ -516,9 +516,10 @@ func c15Run(t *testing.T, out *vfOut, srv *c15Server, h c15Hist, forced ...strin
 	prev, prevV := observe(), verdicts()
 	var steps []string
 	nontrivial := false
-	seen := map[int64][]uint32{} // checksums stored so far, per list
-	var failedSet *c15FailedSet  // the set_url call of the previous step failed
-	forgot := map[int64]bool{}   // see c15FollowUpAfterFailedURLChange
+	seen := map[int64][]uint32{}       // checksums stored so far, per list
+	var failedSet *c15FailedSet        // the set_url call of the previous step failed
+	forgot := map[int64]bool{}         // see c15FollowUpAfterFailedURLChange
+	afterFailedURL := map[int64]bool{} // the URL change of this enabled, stored list has failed since its last refresh
 	for _, st := range h.Steps {
 		if st.Set == nil && !st.Rebuild && len(forgot) > 0 {
 			// See c15FollowUpAfterFailedURLChange.
@@ -675,6 +676,7 @@ func c15Run(t *testing.T, out *vfOut, srv *c15Server, h c15Hist, forced ...strin
 				case urlChange:
 					classes["set-url-change-failed"] = true
 					if b.exists && b.enabled {
+						afterFailedURL[target.ID] = true
 						classes["set-url-change-failed-with-file"] = true
 						classes["set-url-change-failed-"+c15FailKind(sc)] = true
 					}
@@ -866,6 +868,9 @@ func c15Run(t *testing.T, out *vfOut, srv *c15Server, h c15Hist, forced ...strin
 				if b.exists && stErr == nil && stRes.Checksum == srcRes.Checksum {
 					classes["ok-same-checksum"] = true
 					classes["same-checksum"+how] = true
+					if afterFailedURL[l.ID] {
+						classes["failed-url-change-then-same-content"] = true
+					}
 					if rewritten(b, a) {
 						bad("C15/same-checksum-rewritten", fmt.Sprintf("list %d: the source delivered %q, whose checksum %08x is that of the stored file, but the file was replaced", l.ID, data, srcRes.Checksum))
 					}
@@ -873,6 +878,9 @@ func c15Run(t *testing.T, out *vfOut, srv *c15Server, h c15Hist, forced ...strin
 					classes["ok-updated"] = true
 					classes["updated"+how] = true
 					nontrivial = true
+					if afterFailedURL[l.ID] && srcRes.Checksum == 0 {
+						classes["failed-url-change-then-rule-less-content"] = true
+					}
 					if !a.exists || !bytes.Equal(a.file, srcNorm) || !rewritten(b, a) {
 						bad("C15/successful-refresh-not-stored", fmt.Sprintf("list %d: the source delivered %q (normal form %q) but the stored file is %q", l.ID, data, srcNorm, a.file))
 					}
@@ -908,6 +916,9 @@ func c15Run(t *testing.T, out *vfOut, srv *c15Server, h c15Hist, forced ...strin
 			}
 			if l.Allow && attempted[l.ID] {
 				classes["allow-list"] = true
+			}
+			if attempted[l.ID] {
+				delete(afterFailedURL, l.ID)
 			}
 			if !a.enabled {
 				classes["disabled-list"] = true
